@@ -125,7 +125,7 @@ def check_pair(ctx, cell, case):
     mod, dem = mc.build(s)
     mod2, _ = mc.build(s)
     rng = np.random.RandomState(case.get("seed", ctx.seed))
-    if k * m <= 6:
+    if k * m <= 6 and case.get("n_msg", 0) <= 64:
         idx = np.arange(1 << (k * m))
         M = ((idx[:, None] >> np.arange(k * m)[None, :]) & 1).astype(np.float32)
     else:
@@ -308,6 +308,18 @@ def unit_codes(ctx, entries, schemes):
                     check_pair(ctx, None, {"spec": spec, "decoder": dname, "scheme": s, "channel": chan, "seed": ctx.seed, "n_msg": 40 if ctx.tier == "thorough" else 12})
 
 
+def unit_large_batch(ctx, schemes):
+    """A few links with many messages in ONE pipeline call (701 rows: several thousand symbols, no multiple of a power of two):
+    components that work in chunks must not lose the tail of a large call."""
+    pairs = [({"family": "hamming", "mu": 3, "extended": False, "info": "left"}, "syndrome"), ({"family": "repetition", "n": 3}, "ml"), ({"family": "spc", "k": 4}, "wagner")]
+    for spec, dname in pairs:
+        for s in schemes:
+            for chan in ("perfect", "displacement"):
+                check_pair(ctx, {"code": spec["family"], "decoder": dname, "scheme": s["scheme"], "channel": chan, "batch": "large", **{k: v for k, v in s.items() if k != "scheme"}},
+                           {"spec": spec, "decoder": dname, "scheme": s, "channel": chan, "seed": ctx.seed + 3, "n_msg": 701})
+    ctx.cls("large_batch_units")
+
+
 def units(tier, seed):
     codes = code_list(tier)
     mods = mod_list(tier)
@@ -319,4 +331,7 @@ def units(tier, seed):
         us.append(Unit(f"code_{i:02d}_{entry[0]['family']}_fast", "c09:unit_codes", {"entries": [entry], "schemes": fast}, w))
         us.append(Unit(f"code_{i:02d}_{entry[0]['family']}_psk", "c09:unit_codes", {"entries": [entry], "schemes": slow}, w))
     us.append(Unit("reuse", "c09:unit_reuse", {}, 12))
+    big = [s for s in mods if s.get("order", 4) <= 64]
+    for i in range(0, len(big), 8):
+        us.append(Unit(f"large_batch_{i // 8:02d}", "c09:unit_large_batch", {"schemes": big[i:i + 8]}, 6))
     return us
